@@ -30,6 +30,10 @@ FILE_PROGS = [
     ['10 DEFINT A-Z:DIM M(2,2)', '20 OPEN "A.TXT" FOR APPEND AS 3', '30 FOR I=0 TO 2:FOR J=0 TO 2', '40 M(I,J)=I*3+J:WRITE #3,M(I,J),"v"+CHR$(65+J)',
      '50 NEXT J,I', '60 CLOSE 3', '70 GOSUB 200', '80 COLOR 7,0:CLS:PRINT "done";W', '90 END',
      '200 OPEN "A.TXT" FOR INPUT AS 1', '210 WHILE NOT EOF(1):INPUT #1,X,Y$:W=W+X:WEND', '220 CLOSE 1:RETURN'],
+    # the record buffer of a random file written and read as text by separate PRINT# / INPUT# statements (a look-ahead
+    # character is pending between the reads: round-3 seeded change C40c restored it twice)
+    ['10 OPEN "T.DAT" FOR RANDOM AS 1 LEN=32', '20 PRINT #1, 12; 345; -6', '30 PUT #1,1', '40 GET #1,1', '50 INPUT #1,A',
+     '60 INPUT #1,B', '70 INPUT #1,C', '80 PRINT A;B;C', '90 CLOSE', '100 W=A+B+C:PRINT W', '110 END'],
 ]
 
 
@@ -194,7 +198,7 @@ def run(ctx):
         for text in FILE_PROGS:
             ref, _ = run_file_prog(text, 0)
             k = 1
-            step = ctx.pick(3, 1)
+            step = ctx.pick(3, 1) if len(text) > 12 else 1       # short programs: every boundary also in the quick tier
             while k < 400:
                 got, reached = run_file_prog(text, k)
                 if not reached:
